@@ -1,11 +1,135 @@
 """Syntactic side obligations (DESIGN §4.1, §4.5): links between contracted helpers and their call sites
 that neither verifier can reach.  A side obligation NEVER raises a violation by itself: it does so only
-together with a failing native replay on the real build."""
+together with a failing native replay (battery) on the real build.  A flagged site whose battery is
+clean is listed in the evidence as an unverified site and the check stays green."""
+import os
+import re
+import subprocess
+import time
+
+import common
+from rsx import Source, match_close, RsxError
+
+HERE = os.path.dirname(os.path.dirname(os.path.abspath(__file__)))
+
+
+def mount_battery(wr, cfg):
+    common.append_file(os.path.join(wr, cfg['mount']),
+                       '\n#[cfg(all(test, not(kani)))]\n#[path = "%s/replay/%s.rs"]\nmod %s;\n' % (HERE, cfg['unit'], cfg['mod']))
+
+
+def run_battery(wr, cfg, seed, iters):
+    env = dict(os.environ)
+    env['VERIF_SEED'] = str(seed)
+    env['VERIF_ITERS'] = str(iters)
+    env['CARGO_NET_OFFLINE'] = 'true'
+    cmd = ['cargo', 'test', '--lib', '--offline', cfg['test'], '--', '--nocapture', '--test-threads', '1']
+    t0 = time.time()
+    try:
+        p = subprocess.run(cmd, cwd=wr, env=env, capture_output=True, text=True, timeout=2400)
+        t = p.stdout + p.stderr
+    except subprocess.TimeoutExpired:
+        t = 'battery timed out'
+    fails = []
+    for m in re.finditer(r'VERIF-SIDE-FAIL obligation=(\S+) (.*)$', t, re.M):
+        fails.append({'obligation': m.group(1), 'what': m.group(2)[:1500]})
+    m = re.search(r'VERIF-SIDE-DONE cases=(\d+)', t)
+    return {'cmd': 'VERIF_SEED=%d VERIF_ITERS=%d %s' % (seed, iters, ' '.join(cmd)), 'ran': bool(m),
+            'cases': int(m.group(1)) if m else 0, 'fails': fails, 'wall_s': round(time.time() - t0, 1),
+            'tail': '' if m else t[-2500:]}
+
+
+# ---- syntactic scans ---------------------------------------------------------------------------
+
+def scan_c15(repo):
+    """operands of the bitwise operator arms of execute_op must come from to_int32/to_uint32"""
+    path = os.path.join(repo, 'src/interpreter/bytecode_vm.rs')
+    src = Source(path)
+    toks = src.toks
+    flagged, ok_sites = [], 0
+    ops = ('BitAnd', 'BitOr', 'BitXor', 'LShift', 'RShift', 'URShift', 'BitNot')
+    found_ops = set()
+    i = 0
+    while i < len(toks) - 6:
+        if (toks[i].text == 'Op' and toks[i + 1].text == ':' and toks[i + 2].text == ':' and toks[i + 3].text in ops
+                and toks[i + 4].text == '{'):
+            close = match_close(toks, i + 4)
+            if toks[close + 1].text == '=' and toks[close + 2].text == '>' and toks[close + 3].text == '{':
+                arm_end = match_close(toks, close + 3)
+                op = toks[i + 3].text
+                found_ops.add(op)
+                body = src.text[toks[close + 3].start:toks[arm_end].end]
+                line0 = src.line_of(toks[close + 3].start)
+                for m in re.finditer(r'to_number\s*\(\s*\)\s*(?:\)\s*)*as\s+(i32|u32|i64|u64|i16|u16|i8|u8)', body):
+                    flagged.append({'site': 'src/interpreter/bytecode_vm.rs:%d' % (line0 + body.count('\n', 0, m.start())),
+                                    'op': op, 'text': m.group(0)})
+                ok_sites += len(re.findall(r'\bto_u?int32\s*\(', body))
+                i = arm_end
+        i += 1
+    return {'rule': 'operands of Op::{BitAnd,BitOr,BitXor,LShift,RShift,URShift,BitNot} arms are produced by to_int32/to_uint32, '
+                    'not by a saturating `to_number() as i32/u32` cast',
+            'arms_found': sorted(found_ops), 'conforming_sites': ok_sites, 'flagged_sites': flagged,
+            'anchor_lost': sorted(set(ops) - found_ops)}
+
+
+def scan_c10(repo):
+    """no register count / argc / reserve_registers argument is formed by an unchecked `as u8`/`as u16` from a usize length"""
+    flagged = []
+    files = ['src/compiler/compile_expr.rs', 'src/compiler/compile_stmt.rs', 'src/compiler/compile_pattern.rs',
+             'src/compiler/mod.rs']
+    n_sites = 0
+    for rel in files:
+        path = os.path.join(repo, rel)
+        if not os.path.exists(path):
+            continue
+        with open(path) as f:
+            lines = f.read().split('\n')
+        for ln, line in enumerate(lines, 1):
+            code = line.split('//')[0]
+            for m in re.finditer(r'([A-Za-z_][A-Za-z0-9_\.]*(?:\(\))?(?:\.len\(\))?)\s+as\s+(u8|u16)\b', code):
+                expr = m.group(1)
+                # narrowing of something that is (or is derived from) a length / count / index
+                if re.search(r'len\(\)|count|argc|\bi\b|idx|index|num_', expr) or '.len()' in code:
+                    n_sites += 1
+                    # guarded if one of the preceding 12 lines compares against the width limit and bails out
+                    ctx = '\n'.join(lines[max(0, ln - 14):ln])
+                    guarded = bool(re.search(r'(>|>=)\s*(255|256|u8::MAX|u16::MAX|65535|65536|MAX_[A-Z_]+)|try_from|checked_', ctx))
+                    if not guarded:
+                        flagged.append({'site': '%s:%d' % (rel, ln), 'text': code.strip()[:160]})
+    return {'rule': 'no `<length/count/index> as u8|u16` narrowing in compile_* without a limit check or try_from within the preceding lines',
+            'narrowing_sites': n_sites, 'flagged_sites': flagged}
+
+
+SCANS = {'C15': scan_c15, 'C10': scan_c10}
 
 
 def run(pid, P, repo, wr, work, tier, seed):
-    return None
+    cfg = P['side']
+    res = {'kind': 'syntactic side obligation + native replay battery (NOT counted as proved)', 'scan': None,
+           'battery': None, 'violations': [], 'unverified_sites': []}
+    try:
+        res['scan'] = SCANS[pid](repo)
+    except (RsxError, OSError) as e:
+        res['scan'] = {'error': str(e)}
+    if wr is None:
+        return res
+    b = run_battery(wr, cfg, seed, cfg.get('iters_thorough', 400) if tier == 'thorough' else cfg.get('iters_quick', 40))
+    res['battery'] = b
+    known = {k['obligation'] for k in common.known_findings()['known'] if k['property'] == pid}
+    for f in b['fails']:
+        if f['obligation'] in known:
+            res.setdefault('known', []).append(f)
+            continue
+        res['violations'].append({'obligation': f['obligation'], 'what': '%s %s' % (f['obligation'], f['what']),
+                                  'replay_cmd': b['cmd']})
+    if res['scan'] and res['scan'].get('flagged_sites') and not b['fails']:
+        res['unverified_sites'] = res['scan']['flagged_sites']
+    return res
 
 
 def replay(pid, P, side_violations, wr):
-    return 0
+    cfg = P['side']
+    b = run_battery(wr, cfg, 0, cfg.get('iters_quick', 40))
+    for f in b['fails'][:8]:
+        print('[%s] side battery: %s %s' % (pid, f['obligation'], f['what'][:300]), flush=True)
+    return 1 if b['fails'] else 0
